@@ -107,8 +107,8 @@ def run_guesser(rdir, skip_brute, cap=60000, expand_m=False):
 
 
 def gen_world(t, need_small=True):
-    enc = t.choice(["utf-8", "utf-8", "utf-8", "iso-8859-1", "cp1251", "cp1252"])
-    flavour = {"encoding": enc, "nonascii": t.chance(1, 2), "nonbmp": enc == "utf-8" and t.chance(1, 6), "sites": t.chance(1, 3),
+    enc = t.choice(["utf-8", "utf-8", "utf-8", "iso-8859-1", "cp1251", "cp1252", "cp437", "mac_roman"])
+    flavour = {"encoding": enc, "nonascii": t.chance(1, 2) or enc in ("cp437", "mac_roman"), "nonbmp": enc == "utf-8" and t.chance(1, 6), "sites": t.chance(1, 3),
                "awkward": t.chance(1, 15), "zoo": enc == "utf-8" and t.chance(1, 4)}
     pws, opts = trainer.gen_list(t, flavour, max_lines=30)
     return pws, opts
